@@ -14,4 +14,4 @@ for P in $PROPS; do
   OUT=$(cd $V && VERIF_REPO=$COPY timeout 1800 ./check $P --tier quick 2>/dev/null | grep -e '^OK' -e '^VIOLATION' -e '^KNOWN')
   echo "$ID $P: $OUT"
 done
-rm -rf $COPY /tmp/verif-coq-$(python3 -c "import hashlib,os;print(hashlib.md5(os.path.realpath('$COPY').encode()).hexdigest()[:10])")
+rm -rf $COPY
